@@ -97,22 +97,105 @@ def load_known():
         return json.load(f)
 
 
+class Views(object):
+    """the plain program and, built on first use, the helper-inlined view of the same sources (sa/inline.py)"""
+
+    def __init__(self, program, roles, repo):
+        self.plain = (program, roles)
+        self.repo = repo
+        self._inlined = None
+
+    def inlined(self):
+        if self._inlined is None:
+            from .inline import expanded_program
+            from .roles import Roles
+            px = expanded_program(self.repo)
+            self._inlined = (px, Roles(px))
+        return self._inlined
+
+
+def _is_known(v, known_for):
+    return any(k.get('rule') == v.rule and k.get('construct') == v.construct for k in known_for)
+
+
+def _attempt(fn, rule_id, doc, program, roles, prop_id, tier):
+    sub = Ctx(program, roles, prop_id, tier)
+    sub.current_rule = rule_id
+    sub.rule_docs[rule_id] = doc
+    err = None
+    try:
+        fn(sub)
+    except AnalysisError as e:
+        err = e
+    except RecursionError:
+        err = AnalysisError('%s: expression nesting too deep for the analyser' % rule_id)
+    except Exception as e:
+        # a rule tripping over a shape it does not expect is an analysis failure (exit 2), never a verdict
+        import traceback
+        tb = traceback.extract_tb(e.__traceback__)
+        where = '%s:%d' % (os.path.basename(tb[-1].filename), tb[-1].lineno) if tb else '?'
+        err = AnalysisError('%s: code shape not understood by the rule (%s: %s at %s)' % (rule_id, type(e).__name__, e, where))
+    return sub, err
+
+
+def _merge(ctx, sub):
+    ctx.instances.extend(sub.instances)
+    ctx.violations.extend(sub.violations)
+    for k, v in sub.counts.items():
+        ctx.counts[k] = ctx.counts.get(k, 0) + v
+    ctx.evaluations += sub.evaluations
+    ctx.nontrivial |= sub.nontrivial
+    ctx.rule_docs.update(sub.rule_docs)
+
+
+def run_rule(ctx, views, rule_id, fn, doc, known_for):
+    """A rule is evaluated on the plain view.  If it does not pass there (a violation that is not a listed known
+    finding, or a vanished anchor), it is evaluated again on the helper-inlined view, a semantically equivalent
+    program in which statements moved into private helpers are back in place; passing on either view is passing."""
+    P, R = views.plain
+    if os.environ.get('VERIF_FORCE_VIEW') == 'inlined':      # development aid: evaluate everything on the inlined view
+        P, R = views.inlined()
+    sub, err = _attempt(fn, rule_id, doc, P, R, ctx.prop, ctx.tier)
+    new = [v for v in sub.violations if not _is_known(v, known_for)]
+    if err is None and not new:
+        _merge(ctx, sub)
+        return
+    try:
+        PX, RX = views.inlined()
+        sub2, err2 = _attempt(fn, rule_id, doc, PX, RX, ctx.prop, ctx.tier)
+    except AnalysisError as e:
+        sub2, err2 = None, e
+    except RecursionError as e:
+        sub2, err2 = None, AnalysisError('inlined view: %s' % e)
+    if sub2 is not None and err2 is None:
+        new2 = [v for v in sub2.violations if not _is_known(v, known_for)]
+        if not new2:
+            _merge(ctx, sub2)
+            ctx.current_rule = rule_id
+            ctx.info('view', '', 'not established on the plain view (%s); established on the helper-inlined view of the same sources'
+                     % (err if err is not None else '%d site(s) not proved' % len(new)))
+            return
+        if err is not None:
+            # anchor lost on the plain view, a violation on the inlined one: report the violation
+            _merge(ctx, sub2)
+            return
+    if err is not None:
+        raise err
+    _merge(ctx, sub)
+
+
 def run_property(prop_id, spec, program, roles, tier, seed, rules_registry, t0, repo):
     ctx = Ctx(program, roles, prop_id, tier)
-    for rule_id in spec['rules']:
-        fn, doc = rules_registry[rule_id]
-        ctx.current_rule = rule_id
-        ctx.rule_docs[rule_id] = doc
-        fn(ctx)
-    if tier == 'thorough':
-        for rule_id in spec.get('thorough_rules', []):
-            fn, doc = rules_registry[rule_id]
-            ctx.current_rule = rule_id
-            ctx.rule_docs[rule_id] = doc
-            fn(ctx)
-    ctx.current_rule = None
     known = load_known()
     known_for = [k for k in known.get('known', []) if k.get('property') == prop_id]
+    views = Views(program, roles, repo)
+    rule_ids = list(spec['rules'])
+    if tier == 'thorough':
+        rule_ids += list(spec.get('thorough_rules', []))
+    for rule_id in rule_ids:
+        fn, doc = rules_registry[rule_id]
+        run_rule(ctx, views, rule_id, fn, doc, known_for)
+    ctx.current_rule = None
     new = []
     reported_known = []
     for v in ctx.violations:
